@@ -1425,14 +1425,14 @@ def gen_all(ctx):
     for i in idxs:
         ints = INTS + BIG_INTS if rng.random() < 0.1 else INTS
         fam["meta"].append({"family": "meta", "meta": meta_from_index(rng, i, ints)})
-    for _ in range(ctx.n(100, 1500)):
+    for _ in range(ctx.n(100, 1200)):
         fam["meta_dict"].append({"family": "meta_dict", "dict": gen_meta_dict(rng)})
     for n in HASH_NAMES:
         for v in HASH_VALUES:
             fam["hash"].append({"family": "hash", "hi": {"name": n, "value": v}})
     for _ in range(ctx.n(40, 400)):
         fam["hash_dict"].append({"family": "hash_dict", "dict": gen_hash_dict(rng)})
-    for _ in range(ctx.n(120, 3000)):
+    for _ in range(ctx.n(120, 2000)):
         k = gen_key(rng)
         fam["entry"].append({"family": "entry", "entry": gen_entry(rng, k, INTS + BIG_INTS)})
     # the documented corner: a present but all-default meta
@@ -1440,19 +1440,19 @@ def gen_all(ctx):
         for loaded in (None, False):
             m = meta_from_index(rng, 0)
             fam["entry"].append({"family": "entry", "entry": {"key": ["a"], "meta": m, "hi": hi, "loaded": loaded}})
-    for _ in range(ctx.n(120, 2000)):
+    for _ in range(ctx.n(120, 1500)):
         fam["entry_dict"].append({"family": "entry_dict", "dict": gen_entry_dict(rng)})
     for _ in range(ctx.n(60, 600)):
         bad = rng.random() < 0.5
         fam["key"].append({"family": "key", "key": gen_key(rng, 0 if bad else 1, 4, PARTS_OK + (PARTS_BAD if bad else []))})
     for form in ("json", "db"):
         # the diskcache form costs ~35 ms per case (much more under disk contention): fewer of them in quick
-        for _ in range(ctx.n(35 if form == "json" else 25, 400)):
+        for _ in range(ctx.n(35 if form == "json" else 25, 300)):
             fam[form].append({"family": form, "form": form, "entries": gen_index(rng, ints=INTS + BIG_INTS)})
-        for _ in range(ctx.n(15, 150)):
+        for _ in range(ctx.n(15, 120)):
             fam[form].append({"family": form, "form": form, "malformed": True,
                               "entries": gen_index(rng, ints=INTS + BIG_INTS, bad=True)})
-    for _ in range(ctx.n(30, 400)):
+    for _ in range(ctx.n(30, 300)):
         ents = gen_index(rng, root=True)
         ops = [["set", k, e] for k, e in ents]
         if rng.random() >= 0.45:
@@ -1475,7 +1475,7 @@ def gen_all(ctx):
     # the public path: unloaded directory entries filled by DataIndex._load from an object storage
     for _ in range(ctx.n(10, 60)):
         fam["sqlite"].append(gen_load_case(rng))
-    for _ in range(ctx.n(45, 500)):
+    for _ in range(ctx.n(45, 400)):
         hn = rng.choice(["md5", "md5-dos2unix"])
         ents = []
         seen = set()
